@@ -1,8 +1,10 @@
 (* C09 — Bytecode optimisation never changes what a template renders.
    Statements only; proofs in Proofs/OptimizeProofs.v (structure) and Proofs/OptimizeSim.v
    (behaviour, on an abstract VM with arbitrary semantics for every instruction the pass does
-   not touch). *)
-From TeraV Require Import Model.Value Model.Instr Model.Optimize Proofs.OptimizeProofs Proofs.OptimizeSim.
+   not touch), Proofs/OptWorldBase.v + Proofs/OptWorldProofs.v (behaviour of a WHOLE world on the
+   concrete VM of Model/VM.v, nested chunks optimised too). *)
+From TeraV Require Import Model.Value Model.Instr Model.Optimize Model.VM Model.StackCheck Model.World0 Model.OptWorld
+  Proofs.OptimizeProofs Proofs.OptimizeSim Proofs.OptWorldBase Proofs.OptWorldProofs.
 Local Open Scope nat_scope.
 
 (* STRUCTURE. For every chunk without fused instructions whose jump targets are <= its length:
@@ -37,7 +39,7 @@ Theorem C09_optimize_correct :
          (p : chunk),
   unfused p -> targets_in_range p -> iterate_forward (map fst p) ->
   exists o, optimize p = Some o /\
-    let runP := run V S undef is_undef get_value dump get_attr write truthy is_over advance other in
+    let runP := OptimizeSim.run V S undef is_undef get_value dump get_attr write truthy is_over advance other in
     let P := map fst p in let O := map fst o in
     forall st ends ends' s, ends_rel O ends ends' ->
       (forall fuel, runP fuel P 0 st ends s <> OutOfFuel V S ->
@@ -53,7 +55,7 @@ Theorem C09_load_path_equiv :
   is_magic n = false ->
   load_path V S undef is_undef get_value dump get_attr s (n :: attrs)
   = chain V undef is_undef get_attr (load_name V S get_value dump s n) attrs.
-Proof. intros. apply load_path_chain; assumption. Qed.
+Proof. intros. apply OptimizeSim.load_path_chain; assumption. Qed.
 
 Theorem C09_write_path_equiv :
   forall (V S : Type) (undef : V) (is_undef : V -> bool), is_undef undef = true ->
@@ -66,7 +68,7 @@ Theorem C09_write_path_equiv :
     | Some v => if is_undef v then None else write v s
     | None => None
     end.
-Proof. intros. apply write_path_chain; assumption. Qed.
+Proof. intros. apply OptimizeSim.write_path_chain; assumption. Qed.
 
 (* the side conditions are decidable and are evaluated on every real chunk by Corr/CorrC09.v *)
 Theorem C09_hypotheses_decidable : forall p,
@@ -77,6 +79,148 @@ Proof.
   - exact (targets_in_rangeb_ok p H2).
   - exact (iterate_forwardb_ok _ H3).
 Qed.
+
+
+(* ------------------------------------------------------------------------------------------ *)
+(* WHOLE WORLD, CONCRETE VM. The behavioural clause of C09 in full: for every world (template
+   table with root chunks and block lineages, component table, and ARBITRARY filters, tests,
+   functions, arithmetic, comparison, escaping, formatting) and every template, rendering with
+   the pass applied to every chunk (`opt_world`, `opt_tpl`: Model/OptWorld.v) yields the same
+   writer state — the bytes written — or the same error class as rendering the unoptimised
+   chunks, for every writer, block option, context and global context. Nested runs (include,
+   RenderBlock, super(), components) run optimised callee chunks on the optimised side.
+
+   Hypotheses: every chunk passes the four decidable checks of `chunk_ok` (no fused instruction
+   yet, jump targets <= length, Iterate targets forward, C07's validator `check_chunk`, of which
+   the loop-stack part is used: a block / super() chunk never touches the caller's loop frames —
+   without it the statement is false, see C09_needs_loop_discipline_example); Value::get_attr of
+   Undefined is None; filters and functions do not observe a loop's stored end_ip
+   (`scope_blind`; implied by reading the State only through get_value:
+   C09_scope_blind_of_get_value).
+
+   Fuel: (1) original => optimised with the same fuel; (2) optimised => original with the fuel
+   multiplied by `world_bound` (1 + the longest chunk); OutOfFuel for every fuel on one side iff
+   on the other (C09_optimize_world_diverges). *)
+Theorem C09_optimize_world_correct :
+  forall (W : Type) (wr : W -> str -> option W) (wd : world) (tpl : template),
+  world_ok wd = true -> tpl_ok tpl = true ->
+  (forall a, w_get_attr wd VUndef a = None) -> scope_blind wd ->
+  opt_world_defined wd = true /\
+  forall (block : option str) (c g : ctx) (w : W),
+    (forall fuel,
+       render_to W wr wd fuel tpl block c g w <> ROutOfFuel ->
+       same_outcome W (render_to W wr wd fuel tpl block c g w)
+                      (render_to W wr (opt_world wd) fuel (opt_tpl tpl) block c g w)) /\
+    (forall fuel',
+       render_to W wr (opt_world wd) fuel' (opt_tpl tpl) block c g w <> ROutOfFuel ->
+       same_outcome W (render_to W wr wd (world_bound wd tpl * fuel') tpl block c g w)
+                      (render_to W wr (opt_world wd) fuel' (opt_tpl tpl) block c g w)).
+Proof. exact optimize_world_correct. Qed.
+
+Theorem C09_optimize_world_diverges :
+  forall (W : Type) (wr : W -> str -> option W) (wd : world) (tpl : template),
+  world_ok wd = true -> tpl_ok tpl = true ->
+  (forall a, w_get_attr wd VUndef a = None) -> scope_blind wd ->
+  forall block c g w,
+    (forall fuel, render_to W wr wd fuel tpl block c g w = ROutOfFuel) <->
+    (forall fuel', render_to W wr (opt_world wd) fuel' (opt_tpl tpl) block c g w = ROutOfFuel).
+Proof. exact optimize_world_diverges. Qed.
+
+(* every template of a checked world is itself checked: the entry template may be any of them *)
+Theorem C09_world_templates_ok : forall wd n t,
+  world_ok wd = true -> assoc_get (w_templates wd) n = Some t -> tpl_ok t = true.
+Proof. exact tpl_ok_of_world. Qed.
+
+(* under the checks every `optimize` call of opt_world is defined (no index_map panic) *)
+Theorem C09_opt_chunk_defined : forall c, chunk_ok c = true -> opt_chunk_opt c = Some (opt_chunk c).
+Proof. exact opt_chunk_defined. Qed.
+
+(* the loop-stack part of C07's validator is all that is used of it *)
+Theorem C09_check_chunk_loop_discipline : forall c, check_chunk c = true -> loop_disc c.
+Proof. exact check_chunk_loop_disc. Qed.
+
+(* a world whose filters / functions read the State only through get_value is scope_blind *)
+Theorem C09_scope_blind_of_get_value : forall wd : world,
+  (forall n v k sc sc', (forall x, scope_get sc x = scope_get sc' x) -> w_filter wd n v k sc = w_filter wd n v k sc') ->
+  (forall n k sc sc', (forall x, scope_get sc x = scope_get sc' x) -> w_function wd n k sc = w_function wd n k sc') ->
+  scope_blind wd.
+Proof. exact scope_blind_of_get_value. Qed.
+
+(* World0 (the world of the VM correspondence runs) meets the two world-side hypotheses *)
+Theorem C09_world0_hypotheses : forall tpls,
+  (forall a, w_get_attr (world0 tpls) VUndef a = None) /\ scope_blind (world0 tpls).
+Proof. exact world0_hyps. Qed.
+
+Print Assumptions C09_optimize_world_correct.
+Print Assumptions C09_optimize_world_diverges.
+
+(* non-vacuity: a two-template world — `base` writes text, renders block `a` ({{ u.n }}) and
+   includes `inc` ({% for i in xs %}{{ i.y }}{% endfor %}); both the block chunk and the loop
+   body are really fused; rendered on both sides (whole template and block `a` alone). *)
+Definition ex_B : str := [66]%N.
+Definition ex_a : str := [97]%N.
+Definition ex_sinc : str := [105;110;99]%N.
+Definition ex_sbase : str := [98;97;115;101]%N.
+Definition ex_u : str := [117]%N.
+Definition ex_n : str := [110]%N.
+Definition ex_xs : str := [120;115]%N.
+Definition ex_i : str := [105]%N.
+Definition ex_y : str := [121]%N.
+Definition ex_c_inc : list instr :=
+  [LoadName ex_xs; StartIterate false; StoreLocal ex_i; Iterate 8; LoadName ex_i; LoadAttr ex_y; WriteTop;
+   Jump 3; PopLoop].
+Definition ex_c_base : list instr := [WriteText ex_B; RenderBlock ex_a; Include ex_sinc].
+Definition ex_c_blk : list instr := [LoadName ex_u; LoadAttr ex_n; WriteTop].
+Definition ex_inc : template :=
+  {| t_name := ex_sinc; t_chunk := ex_c_inc; t_root_chunk := ex_c_inc; t_lineage := []; t_autoescape := true |}.
+Definition ex_base : template :=
+  {| t_name := ex_sbase; t_chunk := ex_c_base; t_root_chunk := ex_c_base; t_lineage := [(ex_a, [ex_c_blk])];
+     t_autoescape := true |}.
+Definition ex_wd : world := world0 [(ex_sinc, ex_inc); (ex_sbase, ex_base)].
+Definition ex_ctx : ctx :=
+  [(ex_u, VMap [(KStr ex_n true, VStr [60;120;62]%N false)]);
+   (ex_xs, VArr [VMap [(KStr ex_y true, VInt U64 1)]; VMap [(KStr ex_y true, VInt U64 2)]])].
+Definition ex_out (r : rres str) : option str := match r with RDone _ (SinkTop o) => Some o | _ => None end.
+
+Example C09_ex_world :
+  world_ok ex_wd = true /\ tpl_ok ex_base = true /\
+  t_root_chunk (opt_tpl ex_inc) =
+    [LoadName ex_xs; StartIterate false; StoreLocal ex_i; Iterate 6; WritePath [ex_i; ex_y]; Jump 3; PopLoop] /\
+  t_lineage (opt_tpl ex_base) = [(ex_a, [[WritePath [ex_u; ex_n]]])] /\
+  (* "B&lt;x&gt;12" *)
+  ex_out (render_to str wr_str ex_wd 100 ex_base None ex_ctx [] [])
+    = Some [66; 38; 108; 116; 59; 120; 38; 103; 116; 59; 49; 50]%N /\
+  ex_out (render_to str wr_str (opt_world ex_wd) 100 (opt_tpl ex_base) None ex_ctx [] [])
+    = Some [66; 38; 108; 116; 59; 120; 38; 103; 116; 59; 49; 50]%N /\
+  ex_out (render_to str wr_str ex_wd 100 ex_base (Some ex_a) ex_ctx [] [])
+    = Some [38; 108; 116; 59; 120; 38; 103; 116; 59]%N /\
+  ex_out (render_to str wr_str (opt_world ex_wd) 100 (opt_tpl ex_base) (Some ex_a) ex_ctx [] [])
+    = Some [38; 108; 116; 59; 120; 38; 103; 116; 59]%N.
+Proof. vm_compute. repeat split. Qed.
+
+(* why the loop discipline is a hypothesis: a block chunk that executes Break on the CALLER's
+   loop frame (nothing the parser can produce: blocks cannot be nested in for loops, and `break`
+   is rejected outside them) jumps to the caller's stored end_ip, which the pass has re-mapped
+   for the caller's chunk only (9 -> 7). Here the unoptimised render writes "<x>9", the
+   optimised one "<x>789";
+   check_chunk rejects the block chunk. *)
+Definition bad_blk : list instr :=
+  [Break; WriteText [49]%N; WriteText [50]%N; WriteText [51]%N; WriteText [52]%N; WriteText [53]%N;
+   WriteText [54]%N; WriteText [55]%N; WriteText [56]%N; WriteText [57]%N].
+Definition bad_main : list instr :=
+  [LoadConst (VArr [VNone]); StartIterate false; StoreLocal ex_i; Iterate 9; LoadName ex_u; LoadAttr ex_n;
+   WriteTop; RenderBlock ex_a; Jump 3; PopLoop].
+Definition bad_tpl : template :=
+  {| t_name := ex_sbase; t_chunk := bad_main; t_root_chunk := bad_main; t_lineage := [(ex_a, [bad_blk])];
+     t_autoescape := false |}.
+Definition bad_wd : world := world0 [(ex_sbase, bad_tpl)].
+Example C09_needs_loop_discipline_example :
+  check_chunk bad_blk = false /\
+  unfusedb (with_spans bad_blk) && targets_in_rangeb (with_spans bad_blk) && iterate_forwardb bad_blk = true /\
+  chunk_ok bad_main = true /\
+  ex_out (render_to str wr_str bad_wd 100 bad_tpl None ex_ctx [] [])
+  <> ex_out (render_to str wr_str (opt_world bad_wd) 100 (opt_tpl bad_tpl) None ex_ctx [] []).
+Proof. vm_compute. repeat split. discriminate. Qed.
 
 Print Assumptions C09_optimize_structure.
 Print Assumptions C09_optimize_correct.
